@@ -61,6 +61,11 @@ Definition arnoldi_batch (n : nat) (vs : list V) (max_iters : nat) (tol : C) : n
   let cap := Nat.min max_iters n in
   aloop cap max_iters tol cap 0 (map (ainit max_iters) vs).
 
+(* repaired variant (flag arnoldi_padding gone, fix "arnoldi caps max_iters at n"): the requested max_iters is capped at the
+   size of the operator BEFORE the buffers are allocated, so Q has min(max_iters,n)+1 columns and H is square after [:-1] *)
+Definition arnoldi_batch_capped (n : nat) (vs : list V) (max_iters : nat) (tol : C) : nat * list ast :=
+  arnoldi_batch n vs (Nat.min max_iters n) tol.
+
 Definition arnoldi1 (n : nat) (v : V) (max_iters : nat) (tol : C) : ast :=
   hd (mk_ast [] [] o.(c0)) (snd (arnoldi_batch n [v] max_iters tol)).
 Definition arnoldi_steps (n : nat) (v : V) (max_iters : nat) (tol : C) : nat := fst (arnoldi_batch n [v] max_iters tol).
